@@ -176,6 +176,17 @@ def run_case(case):
                  "link_options=[%s]%s)" % (ext, copts,
                                           ', '.join(link['link']), pch))
         L.append("object_file(file='warn.%s', options=[%s])" % (ext, copts))
+        if pch:
+            # the same precompiled header for library sources: the header is
+            # compiled with the options of the objects that use it (pic ...)
+            W('pl.' + ext, 'int pl(void) { return PCH2_MACRO; }\n')
+            W('pl2.' + ext, 'int pl2(void) { return PCH3_MACRO; }\n')
+            W('pre2.h', '#define PCH2_MACRO 2\n')
+            W('pre3.h', '#define PCH3_MACRO 3\n')
+            L.append("shared_library('pchlib', ['pl.%s'], pch='pre2.h', "
+                     "compile_options=[%s])" % (ext, copts))
+            L.append("static_library('pchslib', ['pl2.%s'], pch='pre3.h', "
+                     "compile_options=[%s])" % (ext, copts))
         W('build.bfg', '\n'.join(L) + '\n')
         args = []
         if tc_lines:
@@ -233,6 +244,12 @@ def run_case(case):
             dyn = subprocess.run(['readelf', '-d', prog],
                                  capture_output=True, text=True).stdout
             f['dynamic'] = 'NEEDED' in dyn
+        if pch and f['pch']:
+            rc, out = run(['make', 'libpchlib.so', 'libpchslib.a'], cwd=bld,
+                          env=benv)
+            if rc != 0:
+                f['pch'] = False
+                f['note'] = (f['note'] + ' library with pch: ' + out[-300:])
         rc, out = run(['make', 'warn.o'], cwd=bld, env=benv)
         f['warn_exit'] = rc
         f['warned'] = 'warning:' in out or 'error:' in out
